@@ -122,23 +122,43 @@ def gen_cases(tier, seed):
         for tp in ("NMOS", "PMOS"):
             for fam in ("CORE", "IO", "NONE", "LP", "HP", "RF"):
                 for vth in ("STD", "LOW", "HIGH", "ULTRA_LOW", "ULTRA_HIGH", "ZERO", "NATIVE"):
-                    sized = rnd.random() < 0.5
-                    cases.append({"pdk": pdk, "req": {"prim": "Mos", "by": "params", "model": "", "tp": tp, "fam": fam, "vth": vth, "sized": sized, "mult": rnd.choice([None, 2])}})
+                    sized = rnd.choice(SIZINGS)
+                    cases.append({"pdk": pdk, "req": {"prim": "Mos", "by": "params", "model": "", "tp": tp, "fam": fam, "vth": vth, "sized": sized, "mult": rnd.choice([None, 2]),
+                                                      "nf": rnd.choice([None, 3])}})
         if info["bymodel"]:
             for e in table:
                 prims = {"mos": ["Mos"], "res": ["PhysicalResistor", "ThreeTerminalResistor"], "cap": ["PhysicalCapacitor", "ThreeTerminalCapacitor"],
                          "diode": ["Diode"], "bjt": ["Bipolar"]}[e["kind"]]
                 for prim in prims:
-                    for sized in (True, False):
-                        cases.append({"pdk": pdk, "req": {"prim": prim, "by": "model", "model": e["key"], "tp": "NMOS", "fam": "CORE", "vth": "STD", "sized": sized, "mult": None}})
-            cases.append({"pdk": pdk, "req": {"prim": "Mos", "by": "model", "model": "no_such_model", "tp": "NMOS", "fam": "CORE", "vth": "STD", "sized": True, "mult": None}})
+                    for sized in SIZINGS:
+                        cases.append({"pdk": pdk, "req": {"prim": prim, "by": "model", "model": e["key"], "tp": "NMOS", "fam": "CORE", "vth": "STD", "sized": sized,
+                                                          "mult": rnd.choice([None, 2]), "nf": None}})
+            # names no table entry carries: an unrelated one, and fragments / near misses of the real ones
+            keys = {}
+            for e in table:
+                keys.setdefault(e["kind"], set()).add(e["key"])
+            firstprim = {"mos": "Mos", "res": "PhysicalResistor", "cap": "PhysicalCapacitor", "diode": "Diode", "bjt": "Bipolar"}
+            for kind, ks in sorted(keys.items()):
+                bad = {"no_such_model", ""}
+                for key in sorted(ks)[:: max(1, len(ks) // 4)]:
+                    bad |= {key[:-1], key[1:], key[: len(key) // 2], key + "_", key.upper() if key.upper() != key else key.lower(), key.split("_")[0]}
+                allkeys = set().union(*keys.values())
+                for m in sorted(bad - allkeys):
+                    cases.append({"pdk": pdk, "req": {"prim": firstprim[kind], "by": "model", "model": m, "tp": "NMOS", "fam": "CORE", "vth": "STD", "sized": "wl", "mult": None, "nf": None}})
     if tier == "quick":
         keep = [c for c in cases if c["req"]["by"] == "model"]
         rest = [c for c in cases if c["req"]["by"] != "model"]
         cases = keep + rnd.sample(rest, min(160, len(rest)))
+    others = {"sample": "sky130", "sky130": "sample", "gf180": "sky130", "asap7": "sample"}
     for k, c in enumerate(cases):
         c["how"] = ["direct", "default", "name", "module"][k % 4]
+        # every third case: a design with the same request is first compiled to ANOTHER PDK in the same process (its outcome is ignored)
+        c["pre"] = others[c["pdk"]] if k % 3 == 1 else ""
     return cases
+
+
+SIZINGS = ("wl", "w", "l", "")
+GIVEN = {"w": "3", "l": "7"}        # in microns; different, so that a swap shows
 
 
 def make_prim_call(h, req):
@@ -150,11 +170,131 @@ def make_prim_call(h, req):
         kw["model"] = req["model"]
     elif req["prim"] == "Mos":
         kw.update(tp=MosType[req["tp"]], family=MosFamily[req["fam"]], vth=MosVth[req["vth"]])
-    if req["sized"] and req["prim"] != "Bipolar":
-        kw.update(w=1 * µ, l=1 * µ)
-    if req["mult"] and req["prim"] == "Mos":
-        kw["mult"] = req["mult"]
+    fields = set(getattr(prim.Params, "__dataclass_fields__", {}))
+    for r in ("w", "l"):
+        if r in req["sized"] and r in fields:
+            kw[r] = int(GIVEN[r]) * µ
+    for r in ("mult", "nf"):
+        if req.get(r) and r in fields:
+            # (the capacitor primitives declare their multiplier as text)
+            kw[r] = str(req[r]) if "str" in str(prim.Params.__dataclass_fields__[r].type) and "Scalar" not in str(prim.Params.__dataclass_fields__[r].type) else req[r]
     return prim(**kw)
+
+
+def canon(x):
+    """exact value of a parameter as a canonical decimal string (projection only: equality is decided by TLC)"""
+    from decimal import Decimal, Context
+    from hdl21.prefix import Prefixed
+    ctx = Context(prec=90)
+    if x is None:
+        return ""
+    if isinstance(x, Prefixed):
+        d = ctx.multiply(Decimal(str(x.number)), ctx.power(Decimal(10), Decimal(int(x.prefix.value))))
+    elif isinstance(x, bool):
+        return str(x)
+    elif isinstance(x, int):
+        d = Decimal(x)
+    elif isinstance(x, float):
+        d = Decimal(repr(x))
+    elif isinstance(x, Decimal):
+        d = x
+    else:
+        try:
+            d = Decimal(str(x))
+        except Exception:
+            return "text:" + str(x)
+    if d == 0:
+        return "0"
+    t = d.normalize(ctx).as_tuple()
+    return ("-" if t.sign else "") + "".join(map(str, t.digits)) + "e" + str(t.exponent)
+
+
+def canon_proto(pv):
+    import vlsir
+    from decimal import Decimal
+    from hdl21.prefix import Prefix, Prefixed
+    which = pv.WhichOneof("value")
+    if which == "int64_value":
+        return canon(pv.int64_value)
+    if which == "double_value":
+        return canon(pv.double_value)
+    if which in ("literal", "string_value"):
+        return canon(getattr(pv, which))
+    if which == "prefixed":
+        px = pv.prefixed
+        nw = px.WhichOneof("number")
+        num = Decimal(px.int64_value) if nw == "int64_value" else Decimal(px.string_value) if nw == "string_value" else Decimal(repr(px.double_value))
+        exp = {"YOCTO": -24, "ZEPTO": -21, "ATTO": -18, "FEMTO": -15, "PICO": -12, "NANO": -9, "MICRO": -6, "MILLI": -3, "CENTI": -2, "DECI": -1, "DECA": 1, "HECTO": 2,
+               "KILO": 3, "MEGA": 6, "GIGA": 9, "TERA": 12, "PETA": 15, "EXA": 18, "ZETTA": 21, "YOTTA": 24, "UNIT": 0}[vlsir.SIPrefix.Name(px.prefix)]
+        return canon(num * (Decimal(10) ** exp))
+    return ""
+
+
+# device parameter that carries each sizing role, by the device's parameter class
+ROLEMAP = {
+    "SamplePdkMosParams": {"w": "w", "l": "l", "mult": "m", "nf": "nf"},
+    "Sky130MosParams": {"w": "w", "l": "l", "mult": "mult", "nf": "nf"},
+    "Sky130Mos20VParams": {"w": "w", "l": "l", "mult": "m"},
+    "Sky130GenResParams": {"w": "w", "l": "l"},
+    "Sky130PrecResParams": {},              # fixed-length devices
+    "Sky130MimParams": {"w": "w", "l": "l", "mult": "mf"},
+    "Sky130VarParams": {"w": "w", "l": "l", "mult": "vm"},
+    "Sky130BipolarParams": {"mult": "m"},
+    "GF180MosParams": {"w": "w", "l": "l", "mult": "m", "nf": "nf"},
+    "GF180ResParams": {"w": "r_width", "l": "r_length"},
+    "GF180CapParams": {"w": "c_width", "l": "c_length"},
+    "GF180BipolarParams": {"mult": "m"},
+}
+NOSIZE = {"roles": [], "given": {"w": "", "l": "", "mult": "", "nf": ""}, "dflt": {"w": "", "l": "", "mult": "", "nf": ""}, "got": {"w": "", "l": "", "mult": "", "nf": ""}}
+
+
+def default_sizes(pdk, dev):
+    """(w, l) defaults of a device from the PDK's own tables, "" where it has none"""
+    out = {"w": "", "l": ""}
+    if pdk == "sample":
+        from hdl21.pdk.sample_pdk.pdk import SamplePdkMosParams
+        d = SamplePdkMosParams()
+        return {"w": canon(d.w), "l": canon(d.l)}
+    if pdk == "sky130":
+        from sky130_hdl21.primitives import prim_dicts as pd
+        tabs = [pd.default_xtor_size, pd.default_gen_res_size, pd.default_cap_sizes]
+    elif pdk == "gf180":
+        from gf180_hdl21.primitives import prim_dicts as pd
+        tabs = [pd.default_xtor_size, pd.default_res_size]
+    else:
+        return out
+    for t in tabs:
+        if dev in t:
+            return {"w": canon(t[dev][0]), "l": canon(t[dev][1])}
+    return out
+
+
+def size_record(pdk, req, inst, pinst):
+    """sizing observation for one compiled instance: given values, the PDK's defaults, what the exported device call carries"""
+    from decimal import Decimal
+    of = inst.of
+    mod = getattr(of, "module", None)
+    pt = getattr(getattr(mod, "paramtype", None), "__name__", "")
+    generic = {"w": "w", "l": "l", "mult": "mult", "nf": "nf"}
+    rm = ROLEMAP.get(pt, generic if pdk == "asap7" else {})
+    rec = json.loads(json.dumps(NOSIZE))
+    prim = req["prim"]
+    from ..hd import h
+    fields = set(getattr(getattr(h.primitives, prim).Params, "__dataclass_fields__", {}))
+    rec["roles"] = sorted(r for r in rm if r in fields)
+    for r in ("w", "l"):
+        if r in req["sized"] and r in fields:
+            rec["given"][r] = canon(Decimal(GIVEN[r]) * (Decimal(10) ** -6))
+    for r in ("mult", "nf"):
+        if req.get(r) and r in fields:
+            rec["given"][r] = canon(req[r])
+    d = default_sizes(pdk, getattr(mod, "name", ""))
+    rec["dflt"].update(d)
+    # (no PDK table states a default multiplier or finger count: for those roles only given values are checked)
+    got = {p.name: canon_proto(p.value) for p in pinst.parameters}
+    for r, pn in rm.items():
+        rec["got"][r] = got.get(pn, "")
+    return rec
 
 
 def build_design(h, req, tag):
@@ -187,7 +327,7 @@ def run_case(args):
     info = PDKS[case["pdk"]]
     req = case["req"]
     ev = {"tid": tid, "pdk": case["pdk"], "domain": info["domain"], "mapped": info["mapped"], "table": read_tables(case["pdk"]), "raised": False,
-          "exc_type": "", "exc_len": 0, "exc": "", "P0": EMPTYF, "P1": EMPTYF, "P2": EMPTYF, "W1": EMPTYW, "spice_ok": True, "spectre_ok": True, "reqs": {}}
+          "exc_type": "", "exc_len": 0, "exc": "", "P0": EMPTYF, "P1": EMPTYF, "P2": EMPTYF, "W1": EMPTYW, "spice_ok": True, "spectre_ok": True, "reqs": {}, "sizes": {}}
     r = {"prim": req["prim"], "ports": PRIM_PORTS[req["prim"]], "by": req["by"], "model": req["model"], "tp": req["tp"], "fam": req["fam"], "vth": req["vth"]}
     tag = str(tid)
     ev["reqs"] = {f"Mid{tag}.dut": r, f"Mid{tag}.dut2": r}
@@ -195,7 +335,13 @@ def run_case(args):
         pm = importlib.import_module(info["module"])
         a, _ = build_design(h, req, tag)
         ev["P0"] = strip_names(proj_full(h.to_proto(a)), tag)
-        b, _ = build_design(h, req, tag)
+        if case.get("pre"):
+            try:
+                pre, _ = build_design(h, req, tag + "p")
+                importlib.import_module(PDKS[case["pre"]]["module"]).compile(pre)
+            except Exception:
+                pass
+        b, bmid = build_design(h, req, tag)
         try:
             how = case["how"]
             if how == "direct":
@@ -219,6 +365,10 @@ def run_case(args):
         w = proj_package(pkg1, None)
         w["top"] = w["order"][-1]
         ev["W1"] = w
+        pmid = next(m for m in pkg1.modules if m.name.split(".")[-1] == f"Mid{tag}")
+        for iname in ("dut", "dut2"):
+            pinst = next(i for i in pmid.instances if i.name == iname)
+            ev["sizes"][f"Mid.{iname}"] = size_record(case["pdk"], req, bmid.instances[iname], pinst)
         for fmt, key in (("spice", "spice_ok"), ("spectre", "spectre_ok")):
             try:
                 vlsirtools.netlist(pkg=pkg1, dest=io.StringIO(), fmt=fmt)
